@@ -25,7 +25,7 @@ EXPLANATION = (
 
 def run(tier: str) -> Check:
     check = Check("C01", tier, EXPLANATION)
-    check.rules = ["R1", "R2", "K2", "R5", "RAISE", "SPEC-*", "TERM", "RULE-*", "TRIVIA", "FAIL-PARITY", "SHAPE", "DELEGATE", "UNROLLED", "DIFF", "GEN-DIFF",
+    check.rules = ["R1", "R2", "K2", "R5", "RAISE", "SPEC-*", "TERM", "RULE-*", "TRIVIA", "FAIL-PARITY", "SHAPE", "DELEGATE", "UNROLLED", "DIFF", "GEN-DIFF", "TERM-DIFF",
                    "SYNTAX", "MODULE", "MODULE-NAMES", "MODULE-ORDER", "MODULE-RULES", "MODULE-CLOSURE", "MODULE-ENTRY", "HYGIENE",
                    "NAME-COLLISION", "ENUM-NAMES", "CONST-PARITY", "DETERMINISM", "BUILDER"]
     check.assumptions = [
